@@ -189,6 +189,16 @@ def observe(obj, root, kind, beh):
             _ = Tensor.fromFiber(rank_ids=obj.getRankIds(), fiber=root)
             t2 = Tensor(rank_ids=obj.getRankIds())
             t2.setRoot(root)
+    elif kind == "transforms":
+        # value-returning transforms of a tensor (every rotation / adjacent swap of its ranks, a split, a flatten): the SOURCE must keep its own fibers, owners and rank lists
+        if beh["emb"] == "tensor" and beh["depth"] >= 2:
+            ids = list(obj.getRankIds())
+            for k in range(len(ids) - 1):
+                _ = obj.swizzleRanks(ids[:k] + [ids[k + 1], ids[k]] + ids[k + 2:])
+            _ = obj.swizzleRanks(ids[1:] + ids[:1])
+            _ = obj.swapRanks()
+            _ = obj.splitUniform(2)
+            _ = obj.flattenRanks()
     elif kind == "copy":
         _ = copy.deepcopy(obj)
         _ = root.copy()
